@@ -111,6 +111,13 @@ TEXT = {
         level_note="Trusted: synctest's notion of durable blocking, netsim's fault injection, runtime.Stack. Limits: one parked sender at most; blocked-write expiry is scripted; kernel socket behaviours are represented only by the error/closure classes netsim implements.",
         design_ref="DESIGN.md section 4, C13",
     ),
+    "C20": dict(
+        technique="property-based scenario generation (rapid) executed under the Go race detector (-race build) inside synctest bubbles",
+        engine="rapid",
+        level_text="Exploration: generated scenarios make senders, inbound dispatch, both timer goroutines, state queries, handler/event registration and stop/close overlap in virtual time on both roles with the bundled store; every race report is a violation keyed by the pair of library functions.",
+        level_note="Trusted: the Go race detector (executed pairs only), synctest. Goroutines inside a bubble run truly in parallel; the drawn virtual delays decide which activities overlap.",
+        design_ref="DESIGN.md section 4, C20",
+    ),
 }
 
 _claimed = set(TEXT)
